@@ -33,15 +33,14 @@ Qed.
 
 (** The departures (REFUTED cells, each a known finding): on the reachable sample worlds the
     conformance check fails exactly for these (state, event) pairs and no others:
-      OpenSent/OpenConfirm + ManualStop : no Cease NOTIFICATION is sent        (C01-manualstop-no-cease)
       OpenSent + other NOTIFICATION     : closed without FSM-error NOTIFICATION (C01-opensent-notification-silent-close)
-      OpenSent + KEEPALIVE              : ignored instead of FSM error          (C01-opensent-keepalive-ignored)
       Established + OPEN message error  : answered (2,sub) instead of (5,0)     (C01-established-open-error-code)
-      Established + NOTIFICATION (2,1)  : ignored, session stays up             (C01-established-notif-version-ignored) *)
+    (three further departures of the code as found — no Cease on a manual stop in
+    OpenSent/OpenConfirm, KEEPALIVE ignored in OpenSent, NOTIFICATION (2,1) ignored in Established —
+    were repaired in /repo; their cells now conform) *)
 Theorem C01_departures_exact :
   deviations_on_samples =
-  [(StOpenSent, EvManualStop); (StOpenSent, EvNotifOther); (StOpenSent, EvKeepaliveMsg);
-   (StOpenConfirm, EvManualStop); (StEstablished, EvOpenErr 2); (StEstablished, EvNotifVersion)].
+  [(StOpenSent, EvNotifOther); (StEstablished, EvOpenErr 2)].
 Proof. exact deviations_exact. Qed.
 Print Assumptions C01_departures_exact.
 
